@@ -1,8 +1,9 @@
-import SLModel.Drv.Util
+import SLModel.Drv.Post
 open Lean
 namespace SL.Drv.C18
 
-/-- stub: no model operations for C18 yet -/
-def handle (_req : Json) : Except String Json := .error "C18: not implemented"
+/-- C18 runs the shared post-processing model (`SL.Post.search` / `SL.Post.Spec.search`),
+the definitions the theorems of `Props/C18` are about; see `Drv/Post.lean` for the protocol -/
+def handle (req : Json) : Except String Json := SL.Drv.Post.handle "C18" req
 
 end SL.Drv.C18
